@@ -27,6 +27,13 @@ def _input_dependent(a):
     return bool(tainted_atoms(strip(a)))
 
 
+def _nocast(v):
+    v = strip(v)
+    while isinstance(v, tuple) and v and v[0] in ('cast', 'conv') and len(v) > 2:
+        v = strip(v[2] if v[0] == 'cast' else v[1])
+    return v
+
+
 ALLOC_MUT = {'reserve_exact', 'reserve', 'resize', 'try_reserve', 'try_reserve_exact', 'extend_from_slice', 'resize_with'}
 
 
@@ -156,7 +163,29 @@ def check_hooks(out, facts):
         hooks_here = 0
         for p in paths(ta):
             last_hook = None
+            reserved = []       # sizes of the sized reservations seen so far on this path
+            loop_bounds = []    # bounds of the count-driven loops we are inside of
             for i, e in enumerate(p):
+                if e[0] == 'LOOP1':
+                    src = strip(e[1])
+                    hi = None
+                    if isinstance(src, tuple) and src[0] == 'adt' and src[1].endswith('ops::range::Range'):
+                        hi = [vv for i_, vv in src[3] if i_ == 1][0]
+                    loop_bounds.append(hi)
+                elif e[0] == 'LOOPEND' and loop_bounds:
+                    loop_bounds.pop()
+                if e[0] in ('MUTCALL', 'ALLOC') and e[1] in ('reserve_exact', 'reserve', 'with_capacity', 'try_reserve', 'try_reserve_exact'):
+                    idx = 1 if e[0] == 'MUTCALL' else 0
+                    if idx < len(e[3]):
+                        reserved.append(sym.vstr(_nocast(e[3][idx])))
+                if e[0] == 'MUTCALL' and e[1] in ('push', 'push_back', 'push_front') and loop_bounds and loop_bounds[-1] is not None:
+                    recv = sym.vstr(e[3][0])
+                    bound = loop_bounds[-1]
+                    if (recv.startswith('mut ') or recv.startswith('sink')) and _input_dependent(bound):
+                        b = sym.vstr(_nocast(bound))
+                        if b not in reserved:
+                            bad.append('a loop pushes %s elements into %s but only %s were reserved and announced: growth beyond the reservation is not tracked' % (
+                                b, recv, reserved or 'nothing'))
                 if e[0] == 'HOOK':
                     last_hook = e
                     hooks_here += 1
